@@ -5,6 +5,7 @@ CONSTANTS
   MaxSubs = 3
   Filts = {TRUE}
   Withhold = FALSE
+  DeltaOpts = {TRUE}
   AsCodedFilter = TRUE
 VIEW View
 INVARIANTS TypeOK C14Map
